@@ -45,11 +45,21 @@ func updateImports(name, src string) (updated []*ast.ImportSpec, err error) {
 		return updated, fmt.Errorf("failed to get imports from updated go code: %w", err)
 	}
 	for _, imp := range gofile.Imports {
-		if !slices.Contains(internalImports, strings.Trim(imp.Path.Value, "\"")) {
+		if !isInternalImport(imp) {
 			updated = append(updated, imp)
 		}
 	}
 	return updated, nil
+}
+
+// isInternalImport reports whether the import is one of those the generator writes into every
+// generated file. An import of the same packages under a name of the template author's choosing
+// (import t "github.com/a-h/templ") belongs to the template.
+func isInternalImport(imp *ast.ImportSpec) bool {
+	if !slices.Contains(internalImports, strings.Trim(imp.Path.Value, "\"")) {
+		return false
+	}
+	return imp.Name == nil || imp.Name.Name == "templruntime"
 }
 
 func Process(t parser.TemplateFile) (parser.TemplateFile, error) {
